@@ -84,7 +84,7 @@ def rerun(path, repo):
         return True
     ob = {"model": info.get("model"), "src": info.get("src"), "path": info.get("path")}
     ok, rinfo = try_replay(info["property"], info["obligation"], ob, repo, os.path.dirname(path))
-    print(json.dumps(rinfo, indent=1))
+    print(json.dumps({k: (v if k != "test_source" else "<%d bytes of Go test source>" % len(v)) for k, v in rinfo.items()}, indent=1)[:6000])
     # exit status 0 means: the recorded violation does NOT reproduce any more
     return not ok
 
